@@ -260,7 +260,7 @@ def job_jacobian(tier, rng, group):
 
 
 # ---------------------------------------------------------------- bounded: autograd Jacobians
-def _num_rank(J, gap=1e-6):
+def _num_rank(J, gap=1e-9):
     s = np.linalg.svd(J, compute_uv=False)
     if s[0] == 0:
         return 0
@@ -273,6 +273,7 @@ def job_autograd(tier, rng, dim):
 
     def test(name, make, want, **w):
         nonlocal bad, cnt
+        ranks = []
         for rep in range(3):
             try:
                 m = make()
@@ -297,15 +298,18 @@ def job_autograd(tier, rng, dim):
                     return torch.cat([y.real.reshape(-1), y.imag.reshape(-1)]) if y.is_complex() else y.reshape(-1)
                 x = torch.tensor(rng.normal(size=tuple(th0.shape)), dtype=th0.dtype)
                 J = torch.autograd.functional.jacobian(g, x).reshape(-1, x.numel()).numpy()
-                rk = _num_rank(J)
-                ok = rk == want
+                want_eff = min(want, x.numel())      # a chart cannot have more directions than parameters (e.g. SU(d) inside U(d) for rank==dim)
+                ranks.append(_num_rank(J))
             except Exception as ex:
                 if not from_repo(ex):
                     raise
-                ok = False; rk = f'{type(ex).__name__}: {ex}'
+                ranks.append(f'{type(ex).__name__}: {ex}'); want_eff = want
             cnt += 1
-            if not ok and bad is None:
-                bad = dict(cls=name, dim=dim, rank_found=str(rk), manifold_dimension=want, **jsonable({k: str(v) for k, v in w.items()}))
+        # the generic rank is the maximum over the sampled points (the rank at one point is a lower bound)
+        good = [r for r in ranks if isinstance(r, int)]
+        ok = len(good) == len(ranks) and max(good) == want_eff
+        if not ok and bad is None:
+            bad = dict(cls=name, dim=dim, ranks_found=str(ranks), expected=want_eff, **jsonable({k: str(v) for k, v in w.items()}))
     d = dim
     for real in (True, False):
         dt = torch.float64 if real else torch.complex128
